@@ -34,6 +34,13 @@ def cases(tier, seed):
             for rule in ("Rating", "Limited", "Cumulative", "Approval", "BlocPlurality"):
                 m = 1 + (i % 3)
                 cs.append((rule, bl, m, (1, 2, 3)[i % 3], (1, 2)[i % 2], (None, "random")[i % 2], None))
+    # totals whose exact value has a denominator far above 10^6
+    for rule in ("Rating", "Limited", "Cumulative", "Approval", "BlocPlurality"):
+        big = [({"A": F(1, 11), "B": F(1, 13)}, F(3, 7)), ({"A": F(1, 17), "C": F(1, 19)}, F(5, 13)), ({"B": F(1, 23), "C": F(1, 29)}, F(2, 19)),
+               ({"A": F(1, 1000003)}, F(1, 999983))]
+        for m in (1, 2):
+            cs.append((rule, big, m, 3, 1, "random", None))
+            cs.append((rule, big[:3], m, 2, 2, None, None))
     # boundary violations: take a valid profile and break one limit on one ballot (each position)
     for rule in ("Rating", "Limited", "Cumulative", "Approval", "BlocPlurality"):
         for m in (1, 2, 3):
